@@ -88,12 +88,7 @@ def h_threads(ctx, mods, shape):
     pick = (lambda ready: ctx.choose(len(ready), 'device: which ready stream next'))
     st = Std(ctx, maxdata=4096, pick=pick, sym_rid=shape.get('sym_rid', False))
     sched.SchedLock.sched = None
-    mods.set_global('Lock', sched.SchedLock, only=('adb_device',))
-    try:
-        w = World(ctx, mods, st.dev, impl='sync', default_timeout=1, budget=600)
-    finally:
-        import threading
-        mods.set_global('Lock', threading.Lock, only=('adb_device',))
+    w = World(ctx, mods, st.dev, impl='sync', default_timeout=1, budget=600)
     io = w.dev._io_manager
     io._store_lock.name = 'store_lock'
     io._transport_lock.name = 'transport_lock'
